@@ -163,20 +163,22 @@ def build_coq(prop=None):
         os.makedirs(os.path.join(COQ, "extracted"), exist_ok=True)
         targets = []
         gname = None
-        # auxiliary extraction groups (no property of their own, e.g. "possible"): built with every property
-        aux = [n for n, v in groups().items() if not v["props"]]
+        extra = []
         if prop is not None:
             gname, g = group_of(prop)
-            targets = ["Properties/%s.vo" % prop, g["extract"]] + [groups()[n]["extract"] for n in aux]
+            targets = ["Properties/%s.vo" % prop, g["extract"]]
+            # auxiliary extraction groups (no properties of their own) used by this property's check
+            extra = [n for n, v in groups().items() if prop in v.get("for", [])]
+            targets += [groups()[n]["extract"] for n in extra]
         p = subprocess.run(["timeout", "3000", "make", "-f", "Makefile.gen", "-k", "-j%d" % NPROC] + targets,
                            cwd=COQ, stdout=subprocess.PIPE, stderr=subprocess.STDOUT, text=True)
         ok = p.returncode == 0
         out = p.stdout
-        for n in ([gname] + aux if gname else list(groups())):
+        for n in ([gname] + extra if gname else list(groups())):
             try:
                 build_ocaml(n)
             except RuntimeError as e:
-                if gname and n == gname:
+                if gname:
                     ok = False
                 out += "\n" + str(e)
         return ok, out
